@@ -13,12 +13,12 @@ rsync -a --exclude .git --exclude '.cache/tmp' --exclude 'replays/*' /verif/ "$W
 ( cd "$W/repo" && git apply "$P" ) || { echo "patch does not apply" | tee "$LOG"; exit 2; }
 : > "$LOG"
 for id in "$@"; do
-  unshare -m --propagation private sh -c "mount --bind $W/repo /repo && mount --bind $W/verif /verif && cd /verif && ./check $id" > "$W/out.txt" 2>&1
+  unshare -m --propagation private sh -c "mount --bind $W/repo /repo && mount --bind $W/verif /verif && cd /verif && ./check $id ${CHECK_ARGS:-}" > "$W/out.txt" 2>&1
   rc=$?
   if [ $rc -eq 2 ] && grep -q "harness build failed" "$W/out.txt" && grep -qE "rust-lld|undefined|incremental" "$W/verif/.cache/build-"*.log 2>/dev/null; then
     # the build cache was copied while a build was writing to it: drop the incremental state and retry once
     rm -rf "$W/verif/.cache/target/debug/incremental" "$W"/verif/.cache/target/debug/deps/vl_* "$W"/verif/.cache/target/debug/deps/libvl_*
-    unshare -m --propagation private sh -c "mount --bind $W/repo /repo && mount --bind $W/verif /verif && cd /verif && ./check $id" > "$W/out.txt" 2>&1
+    unshare -m --propagation private sh -c "mount --bind $W/repo /repo && mount --bind $W/verif /verif && cd /verif && ./check $id ${CHECK_ARGS:-}" > "$W/out.txt" 2>&1
     rc=$?
   fi
   echo "== $id rc=$rc: $(grep -E '^VIOLATION|^  key' "$W/out.txt" | head -4 | tr '\n' ' ')" >> "$LOG"
